@@ -234,6 +234,9 @@ fn dwidth(c: char) -> usize {
 
 #[derive(Debug)]
 struct Block {
+    /// true for the window of a second location, introduced by a sentence that names its line and column
+    /// in input coordinates (the `-->` line of a first window gives the column within the cropped text)
+    second: bool,
     header: Option<(u64, u64)>,
     /// (gutter number, text after "N | ")
     lines: Vec<(u64, String)>,
@@ -253,6 +256,7 @@ fn parse_blocks(text: &str) -> Vec<Block> {
             let c = it.next().and_then(|x| x.trim().parse::<u64>().ok());
             let l = it.next().and_then(|x| x.trim().parse::<u64>().ok());
             blocks.push(Block {
+                second: false,
                 header: l.zip(c),
                 lines: vec![],
                 carets: vec![],
@@ -285,6 +289,7 @@ fn parse_blocks(text: &str) -> Vec<Block> {
                     .collect();
                 let header = if nums.len() >= 2 { Some((nums[0], nums[1])) } else { None };
                 blocks.push(Block {
+                    second: true,
                     header,
                     lines: vec![],
                     carets: vec![],
@@ -538,21 +543,30 @@ pub fn exec(c: &RenderCase, st: &mut Stats) -> Vec<Viol> {
                 st.bump("caret.checked");
                 let Some((_, shown)) = b.lines.iter().find(|(m, _)| m == n) else { continue };
                 // which location does this block talk about: the header names it
-                let (hl, _hc) = b.header.unwrap_or((0, 0));
+                let (hl, hc) = b.header.unwrap_or((0, 0));
                 if hl != *n {
                     out.push(mk("caret-not-on-header-line", format!("{name}: header says line {hl}, caret is under line {n}")));
                     continue;
                 }
                 if *n == info.line {
                     marked_any = true;
-                    // a validation error renders one block per issue; only the first one belongs to
-                    // the reported location, so the character comparison is not applied to them
-                    if info.kind.starts_with("Validat") {
+                }
+                // every window names its own location in its header (the reported one, the place of the
+                // anchor's definition, one per validation issue): the caret points at that character
+                {
+                    let col = if b.second {
+                        hc
+                    } else if *n == info.line && !info.kind.starts_with("Validat") {
+                        info.col
+                    } else {
+                        0
+                    };
+                    if col == 0 {
                         continue;
                     }
                     let Some(orig) = orig_lines.get((*n as usize).wrapping_sub(1)) else { continue };
                     let ocs: Vec<char> = orig.chars().collect();
-                    let want = ocs.get((info.col as usize).wrapping_sub(1)).copied();
+                    let want = ocs.get((col as usize).wrapping_sub(1)).copied();
                     // char under the caret
                     let mut acc = 0usize;
                     let mut under: Option<char> = None;
@@ -569,9 +583,7 @@ pub fn exec(c: &RenderCase, st: &mut Stats) -> Vec<Viol> {
                                 out.push(mk(
                                     "caret-under-wrong-character",
                                     format!(
-                                        "{name}: reported {}:{} is {w:?} in the input, the caret points at {u:?} in {:?}",
-                                        info.line,
-                                        info.col,
+                                        "{name}: location {n}:{col} is {w:?} in the input, the caret points at {u:?} in {:?}",
                                         trunc(shown)
                                     ),
                                 ));
@@ -582,7 +594,7 @@ pub fn exec(c: &RenderCase, st: &mut Stats) -> Vec<Viol> {
                             if !w.is_whitespace() {
                                 out.push(mk(
                                     "caret-under-wrong-character",
-                                    format!("{name}: reported {}:{} is {w:?}, the caret is past the end of {:?}", info.line, info.col, trunc(shown)),
+                                    format!("{name}: location {n}:{col} is {w:?}, the caret is past the end of {:?}", trunc(shown)),
                                 ));
                             }
                         }
@@ -659,6 +671,10 @@ const NASTY_ESCAPED: &[&str] = &[
     "\\x1bc",
     "\\u009b1m",
     "\\x90dcs\\x9c",
+    // a C1 control behind a character whose UTF-8 form also starts with 0xC2, no C0 / DEL around
+    "£5\\x9b31m",
+    "°\\u0085next",
+    "§ \\x90x",
     // a carriage return as the only control character of the reflected text
     "over\\rwrite",
     "\\r",
